@@ -63,6 +63,12 @@ STD_FUNCS = [
     # file is being written makes the handler checkpoint re-entrantly
     "nessai.utils.io:safe_file_dump",
     "nessai.flowmodel.base:FlowModel.save_weights",
+    # ... and the pickling hooks that run inside pickle.dump
+    "nessai.samplers.base:BaseNestedSampler.__getstate__",
+    "nessai.proposal.base:Proposal.__getstate__",
+    "nessai.proposal.flowproposal:FlowProposal.__getstate__",
+    "nessai.flowmodel.base:FlowModel.__getstate__",
+    "nessai.model:Model.__getstate__",
     # inside a training (weights half-updated in memory, file not yet saved)
     "nessai.flowmodel.base:FlowModel.train",
     "nessai.evidence:_NSIntegralState.increment",
@@ -91,6 +97,10 @@ INS_FUNCS = [
     "nessai.samplers.importancesampler:ImportanceNestedSampler.checkpoint",
     "nessai.samplers.base:BaseNestedSampler.checkpoint",
     "nessai.utils.io:safe_file_dump",
+    "nessai.samplers.importancesampler:ImportanceNestedSampler.__getstate__",
+    "nessai.samplers.importancesampler:OrderedSamples.__getstate__",
+    "nessai.proposal.importance:ImportanceFlowProposal.__getstate__",
+    "nessai.flowmodel.importance:ImportanceFlowModel.__getstate__",
     "nessai.flowmodel.base:FlowModel.train",
     "nessai.flowmodel.importance:ImportanceFlowModel.add_new_flow",
     "nessai.flowmodel.importance:ImportanceFlowModel.save_weights",
@@ -105,13 +115,18 @@ INS_FUNCS = [
     "nessai.proposal.importance:ImportanceFlowProposal.update_log_q",
 ]
 
-WRITERS = ("checkpoint", "safe_file_dump", "save_weights")
+WRITERS = ("checkpoint", "safe_file_dump", "save_weights", "__getstate__")
 
 INTERESTING = ("consume_sample", "yield_sample", "insert_live_point",
                "populate", "train", "draw", "backward_pass", "increment",
                "add_samples", "remove_samples", "add_and_update_points",
                "add_to_nested_samples", "update_log_q", "convert_to_samples",
                "checkpoint", "safe_file_dump", "save_weights")
+
+
+def func_name(spec):
+    """'module:Class.func' or 'module:func' -> 'func'"""
+    return spec.split(":")[-1].split(".")[-1]
 
 
 def base_configs(seed):
@@ -188,7 +203,7 @@ def make_history(cfgs, sched):
                         "occurrence": sched["occurrence"],
                         "signum": sched["signum"]}}
     extra = {}
-    if sched["func"].split(".")[-1] in WRITERS:
+    if func_name(sched["func"]) in WRITERS:
         # the signal interrupts a checkpoint that is being written: as for a
         # crash during the write (C11), the state found by the next process
         # may be the previous or the new checkpoint
@@ -199,7 +214,7 @@ def make_history(cfgs, sched):
 def judge(ctx, cfgs, sched, reports, out):
     cfg = cfgs[sched["cfg"]]
     case = {"sched": sched, "cfg": cfg}
-    fname = sched["func"].split(".")[-1]
+    fname = func_name(sched["func"])
     classes = ["sampler:ins" if cfg["ins"] else "sampler:standard",
                "func:" + fname, "signal:%d" % sched["signum"]]
     first = reports[0]
